@@ -201,7 +201,10 @@ func (u *uploader) createReport(start time.Time, expiryDate string, countFiles [
 			// does the uploadConfig want this program?
 			// if so, copy over the Stacks and Counters
 			// that the uploadConfig mentions.
-			if !cfg.HasGoVersion(p.GoVersion) || !cfg.HasProgram(p.Program) || !cfg.HasVersion(p.Program, p.Version) {
+			// (The server rejects a whole report if any program in it has an
+			// unlisted GOOS or GOARCH, so those are filtered here too.)
+			if !cfg.HasGoVersion(p.GoVersion) || !cfg.HasProgram(p.Program) || !cfg.HasVersion(p.Program, p.Version) ||
+				!cfg.HasGOOS(p.GOOS) || !cfg.HasGOARCH(p.GOARCH) {
 				continue
 			}
 			x := &telemetry.ProgramReport{
